@@ -4,18 +4,22 @@
 # worktree under /tmp), its own fact cache and evidence directory (RCGEN_REPO / VERIF_CACHE_DIR / VERIF_EVIDENCE_DIR),
 # so /repo itself is never touched.  Scratch directories are removed at the end.
 MODE="$1"; N="${2:-5}"; GLOB="${3:-*}"
+# the checker that is run: the tree this script lives in (so that a frozen snapshot copy of /verif can be swept while
+# /verif itself is being edited)
+VH="$(cd "$(dirname "$0")/.." && pwd)"
 ROOT=$(mktemp -d /tmp/verif-par.XXXXXX)
 LIST=$ROOT/list
 if [ "$MODE" = benign ]; then
-  for f in /verif/selftest/benign/$GLOB.diff; do echo "$f ALL"; done > $LIST
+  for f in $VH/selftest/benign/$GLOB.diff; do echo "$f ALL"; done > $LIST
 elif [ "$MODE" = seeds ]; then
   # all twenty checks against every seeded change; writes seeded/<id>/checks.txt (input of seeded/reindex.sh --index-only)
-  for f in /verif/seeded/$GLOB/patch.diff; do echo "$f ALL"; done > $LIST
+  for f in $VH/seeded/$GLOB/patch.diff; do echo "$f ALL"; done > $LIST
 else
-  python3 - > $LIST <<'PY'
+  VH=$VH python3 - > $LIST <<'PY'
 import json
-d=json.load(open('/verif/selftest/liveness.json'))
-for p,props in sorted(d.items()): print('/verif/'+p, " ".join(props))
+import os
+d=json.load(open(os.environ['VH']+'/selftest/liveness.json'))
+for p,props in sorted(d.items()): print(os.environ['VH']+'/'+p, " ".join(props))
 PY
 fi
 worker() {
@@ -27,7 +31,7 @@ worker() {
   done
   [ $ok = 1 ] || { echo "worker $i: worktree failed"; return; }
   mkdir -p $W/ev
-  cp -a /verif/.cache $W/cache 2>/dev/null; rm -rf $W/cache/facts $W/cache/lock
+  cp -a $VH/.cache $W/cache 2>/dev/null; rm -rf $W/cache/facts $W/cache/lock
   export RCGEN_REPO=$W/repo VERIF_CACHE_DIR=$W/cache VERIF_EVIDENCE_DIR=$W/ev
   awk -v n=$N -v i=$i 'NR % n == i' $LIST | while read p props; do
     b=$(basename $(dirname $p))/$(basename $p .diff); [ "$MODE" = benign ] && b=$(basename $p .diff)
@@ -36,21 +40,21 @@ worker() {
     if [ "$MODE" = seeds ]; then
       RES=$(dirname $p)/checks.txt; : > $RES.tmp
       for c in 01 02 03 04 05 06 07 08 09 10 11 12 13 14 15 16 17 18 19 20; do
-        o=$(cd /verif && ./check C$c 2>&1)
+        o=$(cd $VH && ./check C$c 2>&1)
         if echo "$o" | grep -q "^VIOLATION"; then echo "C$c: VIOLATION" >> $RES.tmp; echo "$o" | grep "violated" | head -6 | cut -c1-240 >> $RES.tmp; else echo "C$c: pass" >> $RES.tmp; fi
       done
       mv $RES.tmp $RES; echo "== $b: caught by $(grep VIOLATION $RES | cut -d: -f1 | tr '\n' ' ')"
     elif [ "$MODE" = benign ]; then
       out=""
       for c in 01 02 03 04 05 06 07 08 09 10 11 12 13 14 15 16 17 18 19 20; do
-        r=$(cd /verif && ./check C$c 2>&1 | grep -E "^  violated" | head -3 | cut -c1-230)
+        r=$(cd $VH && ./check C$c 2>&1 | grep -E "^  violated" | head -3 | cut -c1-230)
         [ -n "$r" ] && out="$out
 $r"
       done
       if [ -n "$out" ]; then echo "== $b: FALSE ALARM$out"; else echo "== $b: silent"; fi
     else
       for c in $props; do
-        if (cd /verif && ./check $c 2>&1 | grep -q "^VIOLATION property=$c"); then echo "== $b: fired $c"; else echo "== $b: MISSED by $c"; fi
+        if (cd $VH && ./check $c 2>&1 | grep -q "^VIOLATION property=$c"); then echo "== $b: fired $c"; else echo "== $b: MISSED by $c"; fi
       done
     fi
     git -C $W/repo checkout -q -- . && git -C $W/repo clean -fdq
